@@ -222,7 +222,7 @@ theorem dictGet_mem {es : List (DKey × Ref)} {k : DKey} {c : Ref} (hg : dictGet
   | nil => simp [dictGet] at hg
   | cons e es ih =>
     obtain ⟨k0, v0⟩ := e
-    by_cases hk : k0 = k
+    by_cases hk : k0.norm = k.norm
     · simp [dictGet, hk] at hg; subst hg; simp
     · simp [dictGet, hk] at hg; simp [ih hg]
 
